@@ -215,6 +215,12 @@ def c14_corpus(ctx):
              'func GetToken(input string, valTy *ValType, pos *int) int { return -1 }\nvar _ = fmt.Sprint\n')
     texts.append(('h_chain', chain, chain.replace('package main\nimport "fmt"\n', '"use strict";\n').replace(' v0 int\n', ' v0 :number = 0;\n')
                   .replace('func GetToken(input string, valTy *ValType, pos *int) int { return -1 }\nvar _ = fmt.Sprint\n', 'function GetToken(input :string, model:{ValType :ValType, pos :number}) :number { return -1 }\n')))
+    # hand-written: names that differ only in letter case (a token NUM and a nonterminal num, Expr / expr, 'a' / 'A'), all numbered automatically
+    cased = ('%{\npackage main\nimport "fmt"\n%}\n%union {\n v0 int\n}\n%token <v0> NUM Id ID\n%type <v0> num Expr expr\n%left \'a\' \'A\'\n%start Expr\n%%\n'
+             'Expr : expr { $$ = $1 } | Expr \'a\' expr { $$ = $1 + $3 } | Expr \'A\' expr { $$ = $1 - $3 } ;\nexpr : num { $$ = $1 } | Id { $$ = $1 } | ID { $$ = $1 } ;\nnum : NUM { $$ = $1 } ;\n%%\n'
+             'func GetToken(input string, valTy *ValType, pos *int) int { return -1 }\nvar _ = fmt.Sprint\n')
+    texts.append(('h_cased', cased, cased.replace('package main\nimport "fmt"\n', '"use strict";\n').replace(' v0 int\n', ' v0 :number = 0;\n')
+                  .replace('func GetToken(input string, valTy *ValType, pos *int) int { return -1 }\nvar _ = fmt.Sprint\n', 'function GetToken(input :string, model:{ValType :ValType, pos :number}) :number { return -1 }\n')))
     for f in sorted(os.listdir(os.path.join(vlib.REPO, 'examples'))):
         if f.endswith('.y'):
             t = open(os.path.join(vlib.REPO, 'examples', f)).read()
